@@ -2,6 +2,8 @@
 From Coq Require Import ZArith List.
 From Coq Require Import Strings.Byte.
 From HP Require Import Bytes Wire WireFacts ParamsOK WireStream.
+From HP Require ProtoGen ProtoGenEq ProtoGenProps.
+From HP Require Import PyPrim.
 Import ListNotations.
 Open Scope Z_scope.
 
@@ -42,8 +44,27 @@ Theorem C07_unrepaired_refuted : forall fuel,
   drain_unrepaired fuel [x00;x00;x00;x00;x00] = (fuel, Some (-1)).
 Proof. exact WireStream.unrepaired_diverges. Qed.
 
+(* ---- for the SOURCE (ProtoGen.v = /repo/hpfeeds/protocol.py translated on this run) ---- *)
+(* iteration always ends: the fuel S(len(self.buf)) of the iteration is never exhausted *)
+Theorem C07_src_total : forall (chunks : list bytes) vs s e,
+  ProtoGenEq.src_feed_all chunks = (vs, s, e) -> e <> Some Unsupported.
+Proof. exact ProtoGenProps.src_total. Qed.
+(* whatever the bytes and the chunking: the values yielded are (op, body) tuples that re-encode, followed by
+   self.buf, to exactly the input; each has a defined opcode and a declared length within 5..limit; and the
+   next __next__() raises StopIteration (waiting for more) or the protocol exception of a bad header *)
+Theorem C07_src_outcomes : forall (chunks : list bytes) vs s e,
+  ProtoGenEq.src_feed_all chunks = (vs, s, e) ->
+  exists fs r, vs = map ProtoGenEq.frame_val fs /\ s = VBArr r /\
+    concat chunks = concat (map enc fs) ++ r /\ Forall (frame_ok limitP) fs /\
+    (e = None /\ ProtoGen.Unpacker_next s = (Raise ProtoGenEq.StopIteration, s) \/
+     exists c, (c = 1 \/ c = 2 \/ c = 3) /\ e = Some (ProtoGenEq.bad_exn c) /\
+               ProtoGen.Unpacker_next s = (Raise (ProtoGenEq.bad_exn c), s)).
+Proof. exact ProtoGenProps.src_outcomes. Qed.
+
 Print Assumptions C07_total.
 Print Assumptions C07_outcomes.
 Print Assumptions C07_reject_at_header.
 Print Assumptions C07_bounded.
 Print Assumptions C07_unrepaired_refuted.
+Print Assumptions C07_src_total.
+Print Assumptions C07_src_outcomes.
